@@ -7,6 +7,7 @@ package varmq
 import (
 	"fmt"
 	"os"
+	"runtime"
 	"sort"
 	"strconv"
 	"strings"
@@ -208,15 +209,30 @@ func (m *mon) c02() {
 	}
 	sort.Slice(evs, func(i, j int) bool { return evs[i].t < evs[j].t })
 	inflight := map[*sub]int{}
+	// the limits in effect, from the API calls (not from what the library stores: Bind, Resume and
+	// Restart must not change the limit): the configured one from the start, n from the call of a
+	// successful TunePool(n); a limit stays possibly in effect until the next TunePool has returned
+	type lim struct{ from, to, v int }
+	lims := []lim{{0, 1 << 60, m.e.conc}}
+	for _, c := range m.e.calls {
+		if c.name != "TunePool" || c.tRet < 0 || !strings.HasPrefix(c.res, "nil/") {
+			continue
+		}
+		n, _ := strconv.Atoi(c.arg)
+		if n < 1 {
+			n = runtime.NumCPU()
+		}
+		lims[len(lims)-1].to = c.tRet
+		lims = append(lims, lim{c.tCall, 1 << 60, n})
+	}
+	if m.e.conc < 1 {
+		lims[0].v = runtime.NumCPU()
+	}
 	limitAt := func(from, to int) int {
 		best := 0
-		for i, c := range m.concAt {
-			end := 1 << 60
-			if i+1 < len(m.concAt) {
-				end = m.concAt[i+1].t
-			}
-			if c.t <= to && end > from && c.v > best {
-				best = c.v
+		for _, l := range lims {
+			if l.from <= to && l.to > from && l.v > best {
+				best = l.v
 			}
 		}
 		return best
